@@ -54,6 +54,94 @@ def gen_env(rng, tier):
     for _ in range(n):
         yield 'E ' + hx(gen_string(rng, False))
 
+# ---- span-scoped (dynamic) directives
+DYN_TARGETS = ['app', 'app::db', 'other']
+DYN_SPANS = ['req', 'conn', 'job']
+DYN_FIELDSETS = ['-', 'id', 'id+ok']
+def _gen_val(rng, name):
+    if name == 'ok': return rng.choice(['true', 'false', 'true'])
+    return rng.choice(['7', '7', '8', '0', '-3', 'seven'])
+def gen_dyn_directives(rng):
+    ds = []
+    for _ in range(rng.choice([1, 2, 2, 3, 4])):
+        r = rng.random()
+        tgt = rng.choice(['-', '-', 'app', 'app::db', 'ap', 'other'])
+        lvl = rng.randrange(0, 6)
+        if r < 0.3:
+            ds.append((tgt, '-', '-', lvl))                                   # static: `target=level` / `level`
+        else:
+            span = rng.choice(['-'] + DYN_SPANS + ['req'])
+            fs = []
+            k = rng.random()
+            if k < 0.5: fs = []
+            elif k < 0.8: fs = ['id']
+            else: fs = ['id', 'ok']
+            fields = '+'.join((f + '=' + _gen_val(rng, f)) if rng.random() < 0.7 and _gen_val(rng, f) != 'seven' else f for f in fs) or '-'
+            if span == '-' and fields == '-': span = 'req'
+            ds.append((tgt, span, fields, lvl))
+    return ds
+
+def gen_dyn_case(rng):
+    ds = gen_dyn_directives(rng)
+    # a directive with two fields cannot be written inside a comma-separated filter string (the string is split at every
+    # comma first): such sets are installed one directive at a time
+    via_add = any('+' in d[2] for d in ds) or rng.random() < 0.25
+    head = ('A ' if via_add else 'P ') + ' '.join('D %s %s %s %d' % d for d in ds)
+    ops = []; nsp = 0; live = []; stack = []
+    def meta(is_span):
+        name = rng.choice(DYN_SPANS) if is_span else 'event'
+        return '%s %s %d %s' % (name, rng.choice(DYN_TARGETS), rng.randrange(1, 6), rng.choice(DYN_FIELDSETS))
+    for _ in range(rng.choice([8, 16, 30])):
+        r = rng.random()
+        if r < 0.25:
+            m = meta(True); fsn = m.split()[3]
+            names = [] if fsn == '-' else fsn.split('+')
+            vals = '+'.join('%s=%s' % (n, _gen_val(rng, n)) for n in names if rng.random() < 0.6) or '-'
+            ops.append('sp %d %s %s' % (nsp, m, vals)); live.append(nsp); nsp += 1
+        elif r < 0.55: ops.append('ev ' + meta(False))
+        elif r < 0.70 and live:
+            k = rng.choice(live)
+            if k not in stack: ops.append('en %d' % k); stack.append(k)
+        elif r < 0.82 and stack:
+            ops.append('ex %d' % stack.pop())                                   # well nested: the most recently entered span exits first
+        elif r < 0.92 and live:
+            k = rng.choice(live)
+            ops.append('rc %d %s' % (k, rng.choice(['id=7', 'id=8', 'ok=true', 'ok=false', 'id=7+ok=true', 'id=-3'])))
+        elif live:
+            cand = [k for k in live if k not in stack]
+            if cand: k = rng.choice(cand); ops.append('cl %d' % k); live.remove(k)
+    return head + ' ;; ' + ' ; '.join(ops)
+
+def gen_dyn(rng, tier):
+    n = 1500 if tier == 'quick' else 40000
+    for _ in range(n):
+        yield gen_dyn_case(rng)
+
+def valid_dyn(case):
+    """well nested: a span exits only when it is the most recently entered one, is entered at most once at a time, and is not
+    closed while entered (the property's quantifier; the shrinker must not leave it)"""
+    stack = []; made = set(); closed = set()
+    if ' ;; ' not in case: return False
+    for op in case.split(' ;; ')[1].split(' ; '):
+        w = op.split()
+        if w[0] == 'sp': made.add(w[1])
+        elif w[0] == 'en':
+            if w[1] in stack or w[1] not in made or w[1] in closed: return False
+            stack.append(w[1])
+        elif w[0] == 'ex':
+            if not stack or stack[-1] != w[1]: return False
+            stack.pop()
+        elif w[0] == 'cl':
+            if w[1] in stack or w[1] not in made or w[1] in closed: return False
+            closed.add(w[1])
+        elif w[0] == 'rc':
+            if w[1] not in made or w[1] in closed: return False
+    return True
+
+def nontrivial_dyn(case, out):
+    # a span-scoped directive in play, some emission enabled and some not, and at least one enter
+    return ' en ' in case and 'e:1' in out and 'e:0' in out and any(d.split()[2] != '-' or d.split()[1] != '-' for d in case.split(' ;; ')[0].split('D ')[1:])
+
 def nontrivial(case, out):
     return out.startswith('ok') and 'a' in out.split()[-3 if case.startswith('T') else 1] and 'n' in out
 
@@ -115,27 +203,37 @@ def extra(tier, seed, rng, res, broken):
             else:
                 res.spec_failures.append(('would_enable', s, 'enabled=' + bits[:40], 'would_enable=' + we))
 
+_dyn = Stream('dyn', 'h_envdyn', mode='modeldyn', gen=gen_dyn, nontrivial=nontrivial_dyn, spec_mode='specdyn')
+_dyn.valid_case = valid_dyn
+
 PROPERTY = {
     'manifest': {
         'text': "Lean 4 theorems over the modelled directive set (StaticDirective's Ord, binary-search insert, first-caring-directive): for EVERY insertion sequence and every metadata, the vector stays sorted by "
                 "specificity (add_sorted) and the decision is taken by a matching directive at least as specific (longer target prefix, then more field constraints) as every other matching one, nothing when none matches "
                 "(most_specific_wins); would_enable = filtering for sets without field constraints (partial; F7 witness); max_level bounds every inserted level. The Targets and EnvFilter (target/level grammar) parsers, "
-                "Display and re-parse equality are modelled executably and compared with the real parsers on generated directive strings over a 280-point metadata universe; Targets-vs-EnvFilter agreement is judged on every string both accept.",
+                "Display and re-parse equality are modelled executably and compared with the real parsers on generated directive strings over a 280-point metadata universe; Targets-vs-EnvFilter agreement is judged on every string both accept. "
+                "Span-scoped directives (Core/EnvDyn: by_cs / by_id / the per-thread scope stack, integer and boolean value matchers, both the whole-string parse and the add_directive construction): through every well-nested history "
+                "the stack is exactly the list of the matching spans entered right now with the level each had when entered (enter_inv, exit_inv, newSpan_inv, record_inv, close_inv — so a level is raised exactly from a "
+                "matching span's enter to its exit), the max-level fast paths never change a verdict, and an emission gets through iff it is a matching span itself, a static directive allows it, or an entered matching span's "
+                "level allows it (dyn_passes_spec, matching_span_always). A real EnvFilter over the Registry is driven through span trees with values recorded at creation and later and compared with the model and the stack-free specification.",
         'note': "Trusted: Lean kernel; propext/Classical.choice/Quot.sound; the regex of EnvFilter's grammar is re-implemented by hand for directives without a [span] part (ASCII); text round-trip is checked by "
-                "correspondence (parse∘display on the real code and on the model), not yet a theorem; span-scoped directives ([span{field=value}]=level) are not yet modelled. Known findings F7, F14 excluded by hypothesis.",
+                "correspondence (parse∘display on the real code and on the model), not yet a theorem; span-scoped directives: string/regex value matchers and out-of-order exits are outside the model (the property quantifies over well-nested histories); the directive STRING of a span-scoped directive is assembled by the executor from the case's structured form (the regex grammar for [span{…}] is exercised, not modelled). Known findings F7, F14 excluded by hypothesis. Repaired on the way: F30 (field lists in EnvFilter directives kept the separating comma).",
         'technique': 'Lean 4 proof (sortedness invariant, induction over insertions) of a hand-written model + differential run against the real parsers and filters',
     },
-    'lean_module': 'TracingModel.Props.C11',
+    'lean_module': 'TracingModel.Props.C11D',
+    'leanchecker_modules': ['TracingModel.Props.C11'],
     'namespace': 'C11',
     'units': [],
-    'required_theorems': ['C11.most_specific_wins', 'C11.insert_sorted', 'C11.build_sorted', 'C11.would_enable_agrees_partial', 'C11.f7_witness', 'C11.max_level_bound', 'C11.mem_build'],
+    'required_theorems': ['C11.most_specific_wins', 'C11.insert_sorted', 'C11.build_sorted', 'C11.would_enable_agrees_partial', 'C11.f7_witness', 'C11.max_level_bound', 'C11.mem_build',
+                          'C11.dyn_passes_spec', 'C11.enter_inv', 'C11.exit_inv', 'C11.newSpan_inv', 'C11.record_inv', 'C11.close_inv', 'C11.matching_span_always', 'C11.mkEnv_ok', 'C11.static_enabled_le_max'],
     'streams': [
         Stream('targets', 'h_filters', gen=gen_targets, nontrivial=nontrivial),
         Stream('env', 'h_filters', gen=gen_env, nontrivial=nontrivial),
+        _dyn,
     ],
     'rule': 'directive strings from the documented grammar: targets with :: paths and shared prefixes (app/application/ap/a), levels by name in random case or digit, bare level / bare target, field-name lists, '
             'duplicates and conflicting entries in any order, malformed pieces; each string is parsed by the real Targets / EnvFilter and queried on 7 targets x 5 levels x span/event x 4 field sets; '
-            'non-trivial = accepted and both enabling and disabling something; distinct = distinct strings',
-    'trusted_base': ['hand-written model Core/Directive.lean', 'executor h_filters (synthetic leaked Metadata queried through Filter::callsite_enabled / would_enable / Display / FromStr)'],
+            'non-trivial = accepted and both enabling and disabling something; distinct = distinct strings. Stream dyn: 1-4 directives (static, [span], [span{field}], [span{field=value}], two-field lists; levels off..trace; duplicates with different levels) installed by parse or by add_directive, then 8-30 ops: spans (3 names x 3 targets x 5 levels x 3 field sets, values at creation), events, well-nested enter/exit, record, close; non-trivial = a span-scoped directive, an enter, and both an enabled and a disabled event',
+    'trusted_base': ['hand-written model Core/Directive.lean', 'executor h_filters (synthetic leaked Metadata queried through Filter::callsite_enabled / would_enable / Display / FromStr)', 'hand-written model Core/EnvDyn.lean', 'executor h_envdyn (real EnvFilter as a global filter over the Registry)'],
     'assumptions': ['ASCII directive strings for the EnvFilter stream'],
 }
